@@ -62,6 +62,7 @@ type RootCtx struct {
 	mode          Mode
 	allocSites    int
 	pendingRefs   []*Term
+	boundedK      int // >0: bounded instance search, loops unrolled K times
 	top           *FnCtx
 }
 
@@ -107,6 +108,7 @@ type FnCtx struct {
 	regions map[*ssa.Alloc]*Region
 	appendSites map[ssa.Instruction]int
 	unrollTag string // suffix making obligation names unique inside unrolled loops
+	pureEval  bool   // evaluating the body of an opaque spec function: memory must not be read
 }
 
 type execError struct{ msg string }
@@ -603,6 +605,10 @@ func (fx *FnCtx) handleLoop(li *loopInfo, incoming []*Edge, rets *[]retInfo) []*
 	if spec != nil && spec.Unroll > 0 {
 		return fx.unrollLoop(li, spec, incoming, rets)
 	}
+	if fx.root.boundedK > 0 {
+		// bounded instance search: explore executions with at most K iterations of this loop
+		return fx.unrollLoop(li, &LoopSpec{Unroll: fx.root.boundedK, Bounded: true}, incoming, rets)
+	}
 	if spec == nil || len(spec.Invariants) == 0 {
 		if k, ok := constTripCount(li); ok && k <= 16 {
 			return fx.unrollLoop(li, &LoopSpec{Unroll: k}, incoming, rets)
@@ -814,8 +820,12 @@ func (fx *FnCtx) unrollLoop(li *loopInfo, spec *LoopSpec, incoming []*Edge, rets
 	if len(inc) > 0 {
 		r := orReach(inc)
 		if r != False {
-			fx.addObl(fx.oblName(fmt.Sprintf("loop%d.unwind", li.ord)), "unwind", r, False, nil, nil,
-				fmt.Sprintf("loop %d finishes within %d iterations", li.ord, spec.Unroll))
+			if spec.Bounded {
+				fx.assume(Not(r))
+			} else {
+				fx.addObl(fx.oblName(fmt.Sprintf("loop%d.unwind", li.ord)), "unwind", r, False, nil, nil,
+					fmt.Sprintf("loop %d finishes within %d iterations", li.ord, spec.Unroll))
+			}
 		}
 	}
 	// merge live-out values over the exits
